@@ -108,11 +108,11 @@ TABLE = {
 
 # obligations added while testing the checks against independent seeded changes and generated sweeps (DESIGN.md 11.5-11.9)
 ADDED = {
-    "C01": "failures raised on the trio thread hop into the loop thread only through thread-safe primitives; the runner mapping is emptied on EVERY exit of the supervising coroutine (graceful stop, failure, interrupt, cancellation); the task registry is a strong container whose entries are removed only by the monitor of the finished task; OrphanedReturn's constructor is total; the termination rules of C02 (supervisor, close-all, runner shutdown) hold; accept() lets a failure of the meta runner's run() pass unchanged -- also one of a class its own handlers name -- and never runs the runtime a second time (O1.7); the event loop's own call_soon / call_later / create_task are called only in the loop's context (a payload thread must use call_soon_threadsafe); every queued / adopted payload reaches exactly one runner -- the flush of the pre-start queue hands over ALL queued payloads, the trio submit channel tolerates shutdown, is written only by the trio run and is never used as a context manager outside it (O3.1 / O3.5 shared with C03); no handler on the failure chain formats the exception it caught eagerly (O1.13); every set_exception behind a synchronous payload monitor tests the failure for StopIteration first (O1.14, library fact: asyncio.Future.set_exception refuses it); a failing adopt step leaves the service sweep by raising (O3.7 shared with C03)",
+    "C01": "failures raised on the trio thread hop into the loop thread only through thread-safe primitives; the runner mapping is emptied on EVERY exit of the supervising coroutine (graceful stop, failure, interrupt, cancellation); the task registry is a strong container whose entries are removed only by the monitor of the finished task; OrphanedReturn's constructor is total; the termination rules of C02 (supervisor, close-all, runner shutdown) hold; accept() lets a failure of the meta runner's run() pass unchanged -- also one of a class its own handlers name -- and never runs the runtime a second time (O1.7); the event loop's own call_soon / call_later / create_task are called only in the loop's context (a payload thread must use call_soon_threadsafe); every queued / adopted payload reaches exactly one runner -- the flush of the pre-start queue hands over ALL queued payloads, the trio submit channel tolerates shutdown, is written only by the trio run and is never used as a context manager outside it (O3.1 / O3.5 shared with C03); no handler on the failure chain formats the exception it caught eagerly (O1.13); every set_exception behind a synchronous payload monitor tests the failure for StopIteration first (O1.14, library fact: asyncio.Future.set_exception refuses it); a failing adopt step leaves the service sweep by raising (O3.7 shared with C03); what a StopIteration is replaced by is interpreted: the future is handed ANOTHER exception that carries the StopIteration as its cause",
     "C02": "a KeyboardInterrupt at the join is absorbed after close-all; the final join of close-all waits for ALL runner tasks (gather with return_exceptions=True / wait ALL_COMPLETED); no polling or looping over payload threads; the submit channel is not cloned; BaseRunner.run clears the stopped flag before managing payloads and sets it on every exit, stop() reads that flag; close-all waits for each runner's aclose() without a deadline (no wait_for(..., timeout) / asyncio.timeout around it); own coroutines only aclose awaits are part of aclose; the aclose routing of the trio runner is resolved through local aliases and local functions; runners are stopped and closed in launch order, one whose aclose() waits for its payloads (asyncio) after those that only signal (trio) (O2.8); the runner mapping is emptied only after the runners are closed and joined; the snapshot of the task registry the asyncio close loop ranges over is taken inside the loop (a task adopted after a snapshot taken once is never cancelled); synchronous helpers only the close path calls are part of it",
     "C03": "argument binding does not depend on a forked condition over the argument values; the hand-over channel is unbounded; only the trio run writes channel / token; nothing on the registration chain formats the payload eagerly (a raising __repr__ must not escape from adopt); the unit registry is a weakref.WeakSet; O3.10 the queue-or-register decision is atomic with the switch to direct registration (OPEN KNOWN FINDING on the current tree, see known_findings.json); a failing adopt step leaves the service sweep by raising; the runner mapping is emptied only after close-all has closed and joined the runners (O2.1 / O2.2 shared with C02); the shutdown request flag is written only in __init__ (False), at the start of accept (False) and in shutdown (True), and accept itself adopts the sweep, so every run sweeps the services (O3.7, shared with C12); the submit channel is not used as a context manager outside the trio run (library fact: MemorySendChannel.__exit__ closes); the unit registry (a WeakSet) is copied in one C-level step over its backing set, never by iterating the WeakSet itself; each flushed queue is emptied before the next one is registered; O3.11 the in-thread fallback of the trio runner compares the current trio token with the runner's before it touches the channel (OPEN KNOWN FINDING, library fact: trio.from_thread.run refuses in any thread that runs a trio task)",
     "C04": "the published __signature__ is exactly one leading parameter plus the raw class's own parameters (other sources, an inverted guard or a dead guard count as not published); the reduce idiom of the pool branch folds right to left; Partial.__init__ / __call__ take no named parameter besides (ctor, *args, __leaf__, **kwargs) / (*args, **kwargs); a signature published only under an extra condition (`signature is not None and signature.parameters`) counts as hidden for the classes the condition excludes; the constructor's signature is taken without options (follow_wrapped=False checks a decorated constructor against (*args, **kwargs)); no handler around a construct call / >> binding translates or swallows the constructor's own exception (O4.9)",
-    "C05": "child translations receive only where= (no construct kwargs leak downwards); the shared template rules of C04 and the structure rules of C19 hold; the YAML document is read while its stream is open (O13.7); the no-template-survives guard never fires for a well-formed pipeline (a template in tail position is constructed first); the fallback walk of load_name starts at the top-level package and follows every remaining component (O19.5); the re-entrant translate_hierarchy changes nothing on the instance in place during the walk (O19.1)",
+    "C05": "child translations receive only where= (no construct kwargs leak downwards); the shared template rules of C04 and the structure rules of C19 hold; the YAML document is read while its stream is open (O13.7); the no-template-survives guard never fires for a well-formed pipeline (a template in tail position is constructed first); the fallback walk of load_name starts at the top-level package and follows every remaining component (O19.5); the re-entrant translate_hierarchy changes nothing on the instance in place during the walk (O19.1); the loader's overrides (flatten_mapping, compose_node) still do PyYAML's part for a document without an offending tag: merges are flattened, composed nodes returned unchanged (O18.10)",
     "C06": "the median-of-three spelling of the clamp is the same clamp; fmod-based floors are rejected, divmod-based ones accepted; both edges of the supply window come from ONE read of the target's supply; the constructor validation is enumerated with NaN as a fourth, unordered outcome of every comparison; the resynchronisation test is the exact comparison, not math.isclose / rounding; no write to the target's demand inside an except handler or a finally block (O6.7)",
     "C07": "every constructor path binds a fresh container of the given children and initialises the stored demand; the total weight is the un-thresholded sum; getters return a value on every path; a getter never answers from a remembered field on some paths (memoised supply / allocation)",
     "C08": "the range table is {(0, inf): base} without rules and otherwise zip([0,*T],[*T,inf],[base,*R]) over (T,R)=zip(*sorted(rules)) entered into the returned dict, stored by the selector's constructor in the attribute get_rule reads (term-level, not text); add records exactly (supply, rule) and returns the rule, the skeleton builds Stepwise(target, base, *rules[, interval]), Stepwise binds target, interval and RangeSelector(base, *rules); sorts are ascending; slaves are re-targeted before validation; the table is not a mutable object shared on the class; ranges come from overlapping consecutive bounds; a failure of the chosen controller's step leaves DemandSwitch.regulate unchanged after exactly one delegation (no fallback to a second controller); no wait between looking the rule up by the current supply and applying it; the threshold table is decided over 16 orderings including the unordered (NaN) outcome of each comparison; the slave list of a DemandSwitch is cut into DISJOINT pairs (not itertools.pairwise); UnboundStepwise.add records nothing on a path that ends in the refusal of a re-defined threshold",
@@ -120,7 +120,7 @@ ADDED = {
     "C10": "own-class helpers are inlined; besides four fixed classes, one exception per class named by a handler on the chain is injected at the payload (a handler meant for the machinery must not swallow or rewrite the same class raised by the payload); an own raise is accepted only as the look-before-you-leap spelling of the subscription's KeyError; a guard that the type facts decide False on every explored path is not an own raise; the crossing bound once at construction (partial(run_coroutine_threadsafe, loop=...)) is read as the call it stands for; the execute chain never uses the payload as a key / member / comparand (O10.7); an outcome taken from a concurrent future asks exception() is not None before result() (O10.8, library fact: Future.result tests the stored exception for truth)",
     "C11": "no function whose context includes LOOP or TRIO calls a blocking threading primitive; trio.run either called in a sync helper handed to run_in_executor by manage_payloads or handed directly as run_in_executor(None, trio.run, entry); one nursery opened once inside the functions owned by the trio run; no threading lock is both held across an unbounded wait (execute's wait, join, blocking from_thread call) and taken on the loop / trio thread; a monitor calls the payload itself and never hands it to a spawn primitive of another context; each runner routes an executed payload into its own loop / trio run with its own token (O10.4 / O10.5 shared with C10); the exclusive guard's acquire / release pairing (O12.1 shared with C12): a refused accept must not release the guard of the running one",
     "C12": "every polling cycle passes an awaited trio checkpoint; the runner mapping is emptied on every exit of the supervising coroutine; closing wakes manage_payloads; shutdown waits without timeout only for events the sweep sets inside the runtime (never for the end of accept itself); the stopped-flag protocol of BaseRunner.run / stop; shutdown returns when every aclose() does: the asyncio runner re-cancels every unfinished task each round, the trio runner cancels its nursery, close-all joins all runner tasks (O2.1, O2.3, O2.4 shared with C02); a KeyboardInterrupt passes manage_payloads, BaseRunner.run and the supervising coroutine unchanged (O1.1, O1.3-O1.5 shared with C01); the failure or interrupt of a payload thread wakes the loop through a thread-safe hand-over (O1.9 shared with C01); the sweep coroutine is adopted by accept, not once per object (a later accept of the same runner would run no sweep)",
-    "C13": "disable_existing_loggers defaults to False before dictConfig; the whole fail-stop chain of C01 and the service typestate / sweep rules of C03 hold; run() adopts the loader exactly once before accept; the YAML document is read while its stream is open (O13.7); nothing logs through the root-logger functions before logging.basicConfig (O13.8); a Python configuration is registered in sys.modules before it is executed (O13.9); the CONFIGURATION argument of the CLI reaches run() as typed: no converter that follows symbolic links or edits the text (its extension selects the loader); a named park duration is a constant or unsupplied default that is infinite; the loader is chosen by splitext(path)[1]; the logging section is taken out before unknown sections are rejected and plugins see exactly their sections (O14.1 / O14.2 shared with C14); the trio hand-over channel is unbounded (services are adopted from inside the trio thread with send_nowait, O3.8) and the request-flag writers rule of C03 / C12 holds; legacy element names resolve at any depth (O19.5) and no handler in the configuration modules mistakes a constructor's TypeError / KeyError for 'not a pipeline' (O5.4), shared with C19 / C05",
+    "C13": "disable_existing_loggers defaults to False before dictConfig; the whole fail-stop chain of C01 and the service typestate / sweep rules of C03 hold; run() adopts the loader exactly once before accept; the YAML document is read while its stream is open (O13.7); nothing logs through the root-logger functions before logging.basicConfig (O13.8); a Python configuration is registered in sys.modules before it is executed (O13.9); the CONFIGURATION argument of the CLI reaches run() as typed: no converter that follows symbolic links or edits the text (its extension selects the loader); a named park duration is a constant or unsupplied default that is infinite; the loader is chosen by splitext(path)[1]; the logging section is taken out before unknown sections are rejected and plugins see exactly their sections (O14.1 / O14.2 shared with C14); the trio hand-over channel is unbounded (services are adopted from inside the trio thread with send_nowait, O3.8) and the request-flag writers rule of C03 / C12 holds; legacy element names resolve at any depth (O19.5) and no handler in the configuration modules mistakes a constructor's TypeError / KeyError for 'not a pipeline' (O5.4), shared with C19 / C05; the loader's overrides (flatten_mapping, compose_node) still do PyYAML's part for a document without an offending tag (O18.10)",
     "C14": "the plugins are digested in the order they are given in; SectionPlugin.load returns on every path a plugin built from THIS entry point (name, loaded object); defaults of required/before/after are False/empty in both the decorator and PluginRequirements; the result of the topological sort is filtered to installed plugins; the unknown-section check compares the very names that are looked up (no strip / casefold / lower inside the validation); decorator and loader agree on the attribute name also when it is a defaulted parameter of a helper; building the text of a configuration error cannot fail itself: no str.join over a collection of plugin objects (O14.7)",
     "C15": "the spawned child is added to the active set exactly once per grow iteration; a demand write stores the value in the attribute the getter returns and the constructor initialises; the run loop shrinks iff supply > demand else grows with target=demand (shared with C09); getters return a value on every path; the excess is reduced before the child is released; no sort of children without a key; each spawned child is booked with its OWN demand (two iterations explored); a failing demand setter in the release step is not swallowed; the bulk form of the release helper is read as the per-child step (sa/normalise.py); the adjustment steps are the methods run() calls with the demand, their loops may live in private helpers",
     "C16": "the validation mapping knows a field by the presence of its KEY, not by the truth of its test value; no decorator writes the target's demand inside an except handler or a finally block (O16.6)",
